@@ -202,6 +202,14 @@ func c13multi(c *Ctx) {
 	if sharedErr {
 		c.R.Probe("failing sinks share one error value")
 	}
+	// one run in four (not through zap.Open): io.Discard behind AddSync is one
+	// more member, in front, in the middle or at the end - it takes everything
+	// and never fails, so it changes neither the smallest count nor the errors
+	discardAt := -1
+	if via != 2 && g.Chance(4) {
+		discardAt = g.Draw(3)
+		c.R.Probe("multi-WriteSyncer with an io.Discard member")
+	}
 	if via == 2 {
 		shape = 0
 		c13register.Do(func() {
@@ -288,6 +296,12 @@ func c13multi(c *Ctx) {
 			// two groups: two elements of the multi are multis themselves
 			args = []zapcore.WriteSyncer{zapcore.NewMultiWriteSyncer(ws[0:2]...), zapcore.NewMultiWriteSyncer(ws[2:4]...)}
 			args = append(args, ws[4:]...)
+		}
+		if discardAt >= 0 {
+			at := []int{0, len(args) / 2, len(args)}[discardAt]
+			with := append([]zapcore.WriteSyncer(nil), args[:at]...)
+			with = append(with, zapcore.AddSync(io.Discard))
+			args = append(with, args[at:]...)
 		}
 		given := append([]zapcore.WriteSyncer(nil), args...)
 		var m zapcore.WriteSyncer
